@@ -55,3 +55,56 @@ Print Assumptions c10_wait_for_acyclic.
 Theorem c10_write_holder_waits_for_nothing : ltac:(let t := type of write_holder_waits_for_nothing in exact t).
 Proof. exact write_holder_waits_for_nothing. Qed.
 Print Assumptions c10_write_holder_waits_for_nothing.
+
+(* ---- bounded progress of the skeleton: the read routine is never blocked by itself ---- *)
+(* C10 additions: PROGRESS of the read routine in the L3 monitor (coq/theories/SyncProgress.v).  To be appended to coq/props/C10.v.  Environment assumptions: see the top of SyncProgress.v. *)
+From MQ Require Import Sync SyncProofs SyncProgress.
+
+(* from every reachable state the read routine is back at the top of ReadSlices (connect, toOffline, its own write, termCallbacks finished) within 42 enabled events, none of them a new API call *)
+Theorem c10_read_routine_returns : ltac:(let t := type of read_routine_returns in exact t).
+Proof. exact read_routine_returns. Qed.
+Check c10_read_routine_returns.
+Print Assumptions c10_read_routine_returns.
+
+(* game form, all outcomes of the designated goroutine, 42 rounds *)
+Theorem c10_read_routine_must_return : ltac:(let t := type of read_routine_must_return in exact t).
+Proof. exact read_routine_must_return. Qed.
+Check c10_read_routine_must_return.
+Print Assumptions c10_read_routine_must_return.
+
+(* a blocked read routine waits for ANOTHER goroutine, and some other goroutine has an enabled event that decreases the potential: it never waits on something only it can provide *)
+Theorem c10_read_routine_never_self_blocked : ltac:(let t := type of read_routine_never_self_blocked in exact t).
+Proof. exact read_routine_never_self_blocked. Qed.
+Check c10_read_routine_never_self_blocked.
+Print Assumptions c10_read_routine_never_self_blocked.
+
+(* what any blocked goroutine waits for *)
+Theorem c10_blocked_waits_for : ltac:(let t := type of blocked_waits_for in exact t).
+Proof. exact blocked_waits_for. Qed.
+Check c10_blocked_waits_for.
+Print Assumptions c10_blocked_waits_for.
+
+(* a persisted publish (submitPersisted) returns within 45 enabled events *)
+Theorem c10_persist_returns : ltac:(let t := type of persist_returns in exact t).
+Proof. exact persist_returns. Qed.
+Check c10_persist_returns.
+Print Assumptions c10_persist_returns.
+
+(* a Publish-like request returns or sits at the designed connPending wait within 43 enabled events without its quit *)
+Theorem c10_request_settles : ltac:(let t := type of request_settles in exact t).
+Proof. exact request_settles. Qed.
+Check c10_request_settles.
+Print Assumptions c10_request_settles.
+
+(* every semaphore the read routine may wait for is available again within 39 enabled events *)
+Theorem c10_tokens_released : ltac:(let t := type of tokens_released in exact t).
+Proof. exact tokens_released. Qed.
+Check c10_tokens_released.
+Print Assumptions c10_tokens_released.
+
+(* every event of a token holder brings the release nearer (all outcomes) *)
+Theorem c10_holder_step : ltac:(let t := type of holder_step in exact t).
+Proof. exact holder_step. Qed.
+Check c10_holder_step.
+Print Assumptions c10_holder_step.
+
